@@ -284,7 +284,9 @@ func classify(pc uintptr) int {
 		switch {
 		case strings.HasPrefix(name, "runtime.") || strings.HasPrefix(name, "sync.") ||
 			strings.HasPrefix(name, "internal/") || strings.HasPrefix(name, "runtime/") ||
-			strings.HasPrefix(name, "sync/"):
+			strings.HasPrefix(name, "sync/") || strings.HasPrefix(name, "math/rand"):
+			// (math/rand: its global functions draw from runtime.rand; transparent, so that an
+			// engine function using them gets simulated randomness)
 			cls = clsRuntime
 		default:
 			for _, p := range SimPrefixes {
@@ -310,11 +312,52 @@ func classify(pc uintptr) int {
 //
 //go:norace
 func callerIsSim(skip int) (uintptr, bool) {
-	var pcs [1]uintptr
-	if runtime.Callers(skip+1, pcs[:]) == 0 {
+	var pcs [3]uintptr
+	n := runtime.Callers(skip+1, pcs[:])
+	if n == 0 {
 		return 0, false
 	}
-	return pcs[0], classify(pcs[0]) == clsSim
+	if classify(pcs[0]) == clsSim {
+		return pcs[0], true
+	}
+	// sync.Cond.Wait re-locks its Locker and sync.Once.Do locks its mutex on behalf
+	// of their caller: if that caller is engine code the lock is a scheduling
+	// point as well (a real Lock could block non-durably behind a parked task)
+	if n >= 2 && isSyncRelay(pcs[0]) {
+		for i := 1; i < n; i++ {
+			switch classify(pcs[i]) {
+			case clsSim:
+				return pcs[i], true
+			case clsRuntime:
+				continue
+			}
+			break
+		}
+	}
+	return pcs[0], false
+}
+
+var relayCache [64]atomic.Uint64
+
+//go:norace
+func isSyncRelay(pc uintptr) bool {
+	slot := &relayCache[(uint64(pc)*0x9e3779b97f4a7c15)>>58]
+	if e := slot.Load(); e>>1 == uint64(pc) {
+		return e&1 == 1
+	}
+	yes := false
+	if f := runtime.FuncForPC(pc - 1); f != nil {
+		switch f.Name() {
+		case "sync.(*Cond).Wait", "sync.(*Once).doSlow", "sync.(*Once).Do":
+			yes = true
+		}
+	}
+	v := uint64(pc) << 1
+	if yes {
+		v |= 1
+	}
+	slot.Store(v)
+	return yes
 }
 
 // ------------------------------------------------------------------ hooks
@@ -362,11 +405,13 @@ func chanHook1(kind int, c unsafe.Pointer, pc uintptr) {
 		return
 	}
 	s := t.sim
-	if s.free.Load() {
+	if t.killed.Load() {
+		// the run is over: a task that comes back from a blocking operation
+		// during teardown must not execute another line of engine or harness code
+		t.exit()
 		return
 	}
-	if t.killed.Load() {
-		t.exit()
+	if s.free.Load() {
 		return
 	}
 	if classify(pc) != clsSim {
@@ -501,11 +546,12 @@ func lockHook1(m unsafe.Pointer, kind int) {
 		return
 	}
 	s := t.sim
-	if s.free.Load() {
+	if t.killed.Load() {
+		// (a task that is already unwinding has inHook set and never gets here)
+		t.exit()
 		return
 	}
-	if t.killed.Load() {
-		// unwinding: deferred code of a killed task takes locks for real
+	if s.free.Load() {
 		return
 	}
 	pc, ok := callerIsSim(4)
@@ -620,10 +666,8 @@ func fsHook1(op int, name, name2 string, n int64) error {
 		return nil
 	}
 	if t.killed.Load() {
-		if op != os.VerifOpClose {
-			return errKilled
-		}
-		return nil
+		t.exit()
+		return errKilled
 	}
 	if s.free.Load() {
 		return nil
@@ -722,8 +766,20 @@ func (s *Sim) Cur() *Task { return lookup() }
 //
 //go:norace
 func (s *Sim) Seq() int {
+	s.checkKilled()
 	s.seq++
 	return s.seq
+}
+
+// checkKilled ends the calling task if the run is over (a client released from
+// a blocking call by the teardown must not go on recording results).
+//
+//go:norace
+func (s *Sim) checkKilled() {
+	if t := lookup(); t != nil && !t.inHook && t.killed.Load() {
+		raceOff() // exit() leaves one dark window
+		t.exit()
+	}
 }
 
 // Yield is an explicit scheduling point of harness code.
@@ -738,11 +794,14 @@ func (s *Sim) Yield(tag string) {
 //go:norace
 func (s *Sim) yield1(tag string) {
 	t := lookup()
-	if t == nil || t.inHook || s.free.Load() {
+	if t == nil || t.inHook {
 		return
 	}
 	if t.killed.Load() {
 		t.exit()
+	}
+	if s.free.Load() {
+		return
 	}
 	t.inHook = true
 	t.park(Site{Kind: SiteYield, Name: tag})
@@ -762,11 +821,14 @@ func (s *Sim) WaitUntil(tag string, cond func() bool) {
 //go:norace
 func (s *Sim) waitUntil1(tag string, cond func() bool) {
 	t := lookup()
-	if t == nil || t.inHook || s.free.Load() {
+	if t == nil || t.inHook {
 		return
 	}
 	if t.killed.Load() {
 		t.exit()
+	}
+	if s.free.Load() {
+		return
 	}
 	t.inHook = true
 	t.park(Site{Kind: SiteYield, Name: tag, Cond: cond})
@@ -786,11 +848,14 @@ func (s *Sim) Sleep(d time.Duration) {
 //go:norace
 func (s *Sim) sleep1(d time.Duration) {
 	t := lookup()
-	if t == nil || t.inHook || s.free.Load() {
+	if t == nil || t.inHook {
 		return
 	}
 	if t.killed.Load() {
 		t.exit()
+	}
+	if s.free.Load() {
+		return
 	}
 	t.inHook = true
 	t.park(Site{Kind: SiteYield, Name: "sleep", Sleep: d})
@@ -810,11 +875,14 @@ func (s *Sim) APIBegin(tag string) {
 //go:norace
 func (s *Sim) aPIBegin1(tag string) {
 	t := lookup()
-	if t == nil || t.inHook || s.free.Load() {
+	if t == nil || t.inHook {
 		return
 	}
 	if t.killed.Load() {
 		t.exit()
+	}
+	if s.free.Load() {
+		return
 	}
 	t.inHook = true
 	t.park(Site{Kind: SiteAPI, Name: tag})
@@ -824,6 +892,7 @@ func (s *Sim) aPIBegin1(tag string) {
 
 //go:norace
 func (s *Sim) APIEnd() {
+	s.checkKilled()
 	if t := lookup(); t != nil {
 		t.InAPI = false
 	}
